@@ -228,6 +228,8 @@ pub struct PerMon {
     pub offline_probing: bool,
     pub last_probe_cycle: Option<u64>,
     pub offline_events_since_online: u32,
+    /// transmissions to this peripheral since the last *acceptable* reply was delivered
+    pub tx_since_accepted: u32,
     // C14
     pub life: u8, // 0 down, 1 online, 2 configured
     pub dx_since_configured: bool,
@@ -635,6 +637,9 @@ impl<'a> DpRun<'a> {
             }
             self.mon[i].reply_since_last_req = Some(accepted || self.mon[i].reply_since_last_req == Some(true));
             self.mon[i].unanswered_run = 0;
+            if accepted {
+                self.mon[i].tx_since_accepted = 0;
+            }
             rep.count(if accepted { "replies_acceptable" } else { "replies_rejectable" });
             // C03 stage machine (master's point of view)
             let m = &mut self.mon[i];
@@ -759,6 +764,14 @@ impl<'a> DpRun<'a> {
             // ---- C08 R4 bookkeeping ----
             match ev {
                 Some(PeripheralEvent::Offline) => {
+                    // an Offline event needs 1 + max_retry_limit transmissions without an acceptable reply
+                    let need = 1 + self.cfg.retry_limit as u32;
+                    if self.mon[i].tx_since_accepted < need {
+                        let n = self.mon[i].tx_since_accepted;
+                        self.viol(rep, "C08", "C08/R4/offline-although-answered".into(), format!("#{} declared offline after only {} transmission(s) since its last acceptable reply (max_retry_limit {})", addr, n, self.cfg.retry_limit));
+                    } else {
+                        rep.count("C08_R4_offline_events_justified");
+                    }
                     if self.mon[i].offline_events_since_online > 1 {
                         self.viol(rep, "C08", "C08/R4/second-offline-event".into(), format!("#{}: a second Offline event without an Online in between", addr));
                     }
@@ -973,6 +986,7 @@ impl<'a> DpRun<'a> {
                     self.mon[i].unanswered_run = 0;
                 }
             }
+            self.mon[i].tx_since_accepted += 1;
             self.mon[i].last_req = Some((fcv, fcb, kind, raw.clone()));
             self.mon[i].reply_since_last_req = None;
             self.mon[i].last_req_kind = Some(kind);
@@ -1045,7 +1059,8 @@ pub fn make_bufs(cfg: &DpCfg) -> Vec<(Vec<u8>, Vec<u8>)> {
 // Workloads
 // ------------------------------------------------------------------------------------------------
 
-pub const HOSTILE: [Fault; 24] = [
+pub const HOSTILE: [Fault; 25] = [
+    Fault::PrmReqOnly,
     Fault::RequestLost,
     Fault::ReplyLost,
     Fault::ReplyCorrupted,
